@@ -234,6 +234,21 @@ static void family_scanc(std::vector<hm::Scenario>& out, unsigned oracles, bool 
                 add(out, fam, *sh, {{scans[si]}, {w}}, oracles, quick, 2, 3);
             }
         }
+        // slot reuse under a scan: the writer removes a key and inserts another one (or the same) into the freed slot
+        if (!with_nv && sh->pal.count("in") != 0) {
+            std::vector<std::string> targets = {sh->pal.at("in")};
+            if (sh->pal.count("inL") != 0) targets.push_back(sh->pal.at("inL"));
+            for (auto& k : targets) {
+                for (const char* nk : {"new", "new2", "newL"}) {
+                    if (sh->pal.count(nk) == 0) continue;
+                    for (std::size_t si : {std::size_t(0), std::size_t(2)}) {
+                        if (si >= scans.size()) continue;
+                        add(out, fam, *sh, {{scans[si]}, {mk(REMOVE, k), mk(PUT, sh->pal.at(nk), 2)}}, oracles, quick_shapes.count(sn) != 0 && si == 0, 2, 2);
+                    }
+                }
+                add(out, fam, *sh, {{scans[0]}, {mk(REMOVE, k), mk(PUT, k, 2)}}, oracles, quick_shapes.count(sn) != 0, 2, 2);
+            }
+        }
         // two writers / two writes, full scan only
         for (std::size_t a = 0; a < wops.size(); ++a) {
             for (std::size_t b = a + 1; b < wops.size(); ++b) {
@@ -293,6 +308,14 @@ static void family_iscanc(std::vector<hm::Scenario>& out, unsigned oracles) {
             for (std::size_t b = a + 1; b < wops.size(); ++b) {
                 if (wops[a].key == wops[b].key) continue;
                 add(out, "iscanc", *sh, {{cursors[0]}, {wops[a], wops[b]}}, oracles, false, 2, 2);
+            }
+        }
+        if (sh->pal.count("in") != 0 && sh->pal.count("new") != 0) {
+            // remove a key the cursor may already have delivered + insert a new one into the same node (rank bookkeeping of the cursor)
+            bool flat = sn[0] != 'L';
+            for (std::size_t ci = 0; ci < 2 * 2; ci += 2) {
+                add(out, "iscanc", *sh, {{cursors[ci]}, {mk(REMOVE, sh->pal.at("in")), mk(PUT, sh->pal.at("new"), 2)}}, oracles, flat, 2, 2);
+                if (sh->pal.count("first") != 0) add(out, "iscanc", *sh, {{cursors[ci]}, {mk(REMOVE, sh->pal.at("first")), mk(PUT, sh->pal.at("new"), 2)}}, oracles, flat, 2, 2);
             }
         }
     }
